@@ -253,9 +253,26 @@ def run(tier: str) -> int:
                                     inputs=profiles.inputs_exhaustive(3, 4, cap_q=50, cap_t=300), per_tu=2,
                                     configs=lambda g, root, tier: [Config(root, 1, 'o', 'lf_crlf', 0, 1, 0, 0, 0, cv) for cv in (1, 2, 3)],
                                     ctx_names=['top', 'seq-tail', 'in-tcrf']),
+        # the logging control as the Base of the state-shuffling adaptors (rotate_states_left / right, reverse_states, remove_first_state;
+        # zero-, one- and three-state overloads): same hooks as a plain parse, and every hook is handed the states in the documented order
+        profiles.random_profile('shuf', False, True, 6, 40, ORACLES + [('shuffle', oracle_shuffle)], actions_mode='throw', racts='off',
+                                inputs=profiles.inputs_exhaustive(4, 6, cap_q=50, cap_t=300), per_tu=2,
+                                configs=lambda g, root, tier: [Config(root, 1, 'o', 'lf_crlf', 0, 1, 0, 0, 0, cv) for cv in (4, 5, 6, 7, 8, 9)]),
+        profiles.systematic_profile('shufsys', lambda k, f: f == 'raise' or k in ('seq2', 'sor2', 'star1', 'at1', 'if_apply1'), True, 16, 60,
+                                    ORACLES + [('shuffle', oracle_shuffle)], actions_mode='throw',
+                                    inputs=profiles.inputs_exhaustive(3, 4, cap_q=40, cap_t=200), per_tu=2,
+                                    configs=lambda g, root, tier: [Config(root, 1, 'o', 'lf_crlf', 0, uw, 0, 0, 0, cv) for (uw, cv) in ((1, 4), (0, 5), (1, 7), (1, 8))],
+                                    ctx_names=['top', 'in-tcrf']),
     ]
     return engine.run_engine('C08', tier, ['PegtlVerif.Props.C08'], ps,
                              extra=lambda v, cov, rng: coverage_part(v, cov, rng, tier))
+
+
+def oracle_shuffle(c: Case, tr: Trace) -> Optional[str]:
+    for l in tr.alerts:
+        if l.startswith('SHUF-BAD'):
+            return f"a control hook below a state-shuffling adaptor was handed the states in the wrong order: '{l}' (run mode {c.cfg.cov})"
+    return None
 
 
 def replay(path: str) -> int:
